@@ -8,7 +8,7 @@ CONSTANTS
   Forge64 = {"resign_stranger"}
   Forge22 = {"resign_stranger"}
   Forge32 = {"resign_stranger"}
-  MaxReq = 5
+  MaxReq = 4
   WithMutants = TRUE
 CONSTRAINT Bound
 INVARIANTS TypeOK InOrder ErrorsHaveNoEffect NoTokenNoService FinalKills EffectsNeedProof ProvenOnlyByHonest64 ForgedRefused RedirectNeedsRegistration
